@@ -47,7 +47,17 @@ for path in sorted(glob.glob(os.path.join(HERE, 'mutants', '*.json'))):
     finally:
         shutil.rmtree(scratch, ignore_errors=True)
     print('%-40s %-8s %-12s %s' % rows[-1], flush=True)
-json.dump({r[0]: {'property': r[1], 'repository_tests': r[2], 'result': r[3]} for r in rows},
-          open(os.path.join(HERE, 'mutants', 'RESULTS.json'), 'w'), indent=1, sort_keys=True)
+# merge into the recorded results (a partial run updates only its own rows; a --no-tests run keeps the recorded test status)
+rp = os.path.join(HERE, 'mutants', 'RESULTS.json')
+try:
+    recorded = json.load(open(rp))
+except Exception:  # noqa
+    recorded = {}
+for r in rows:
+    tests = r[2]
+    if tests == 'skipped' and r[0] in recorded and recorded[r[0]].get('repository_tests') not in (None, 'skipped'):
+        tests = recorded[r[0]]['repository_tests'] + ' (recorded earlier)'
+    recorded[r[0]] = {'property': r[1], 'repository_tests': tests, 'result': r[3]}
+json.dump(recorded, open(rp, 'w'), indent=1, sort_keys=True)
 missed = [r for r in rows if 'MISSED' in r[3] or 'NOT-APPLY' in r[2]]
 print('\n%d mutants, %d not caught' % (len(rows), len(missed)))
